@@ -127,8 +127,9 @@ Lemma step_inv ws s log a : PInv ws s log -> incl (step_worker a) ws -> claim_ok
   PInv ws (fst (step_p s a)) (log ++ acc a).
 Proof.
   intros I W OK. destruct I as [Sp [Srt Flt] Ws One Hd Dn].
-  destruct a as [ops|ops|w|w|w|w|w|w|n|p|]; cbn [PartOutbox.step_p acc]; try rewrite app_nil_r;
-    try (cbn [fst]; split; auto; fail).
+  destruct a as [ops|ops|w|w|w|w|w|w|n|p| | | | |]; cbn [PartOutbox.step_p acc]; try rewrite app_nil_r;
+    try (cbn [fst]; split; auto; fail);
+    try (destruct (listing s) as [[es0|i0]|]; cbn [fst]; split; auto; fail).
   - (* commit *)
     pose proof (commit_spec ops (entries s) (pnext s)) as (A & HB & [new C]).
     destruct (commit_ops (entries s) (pnext s) ops) as [es n]. cbn [fst snd] in *.
@@ -214,7 +215,7 @@ Proof.
       rewrite wupd_other, Idle in H by assumption. discriminate.
   - (* heartbeat *)
     assert (G : forall id, PInv ws {| entries := map_entry (entries s) id (fun e => if owned_by e w then set_owner e (Some w) (now s + lease)%N else e);
-                          inner_parts := inner_parts s; now := now s; pnext := pnext s; workers := workers s |} log).
+                          inner_parts := inner_parts s; now := now s; pnext := pnext s; workers := workers s; listing := listing s |} log).
     { intros id. split; cbn [entries inner_parts now pnext workers]; auto.
       - rewrite eops_map_entry; [exact Sp|]. intros e. destruct (owned_by e w); reflexivity.
       - rewrite ids_map_entry by (intros e; destruct (owned_by e w); reflexivity). split; [exact Srt|].
@@ -289,6 +290,94 @@ Theorem drained_inner_eq_committed tr :
 Proof.
   intros NS E p. pose proof (run_inv _ tr pinit [] (PInv_init _) (incl_refl _) NS) as I. cbn [app] in I.
   rewrite (pi_spec _ _ _ I p), E. reflexivity.
+Qed.
+
+(* ---- GetPartIds as two reads ---- *)
+Definition LInv (s : pstate) (log : list pop) : Prop :=
+  forall es0, listing s = Some (LOutbox es0) ->
+    incl (eops (entries s)) (eops es0) /\ seq_store (spec_store log) (fold_ops (eops es0) (inner_parts s)).
+
+Lemma fold_apply_member ops o i p : In o ops -> fold_ops ops (apply_pop i o) p = fold_ops ops i p.
+Proof.
+  intros H. rewrite !fold_last. destruct (N.eq_dec (pop_pid o) p) as [E|N].
+  - assert (F : exists x, find (fun o0 => (pop_pid o0 =? p)%N) (rev ops) = Some x).
+    { destruct (find _ (rev ops)) eqn:Fd; [eauto|]. exfalso.
+      eapply find_none in Fd; [|apply in_rev; rewrite rev_involutive; exact H]. cbn in Fd. apply N.eqb_neq in Fd. congruence. }
+    destruct F as [x ->]. reflexivity.
+  - destruct (find _ (rev ops)); [reflexivity|]. destruct o; cbn in *; apply supd_other; congruence.
+Qed.
+
+Definition listing_ok (s : pstate) (a : pstep) : bool :=
+  match a, listing s with SCommit _, Some _ => false | _, _ => true end.
+
+Lemma list_step ws s log a : PInv ws s log -> LInv s log -> listing_ok s a = true ->
+  LInv (fst (step_p s a)) (log ++ acc a).
+Proof.
+  intros I L Q. destruct I as [Sp [Srt Flt] Ws One Hd Dn]. unfold LInv in *.
+  destruct a as [ops|ops|w|w|w|w|w|w|n|p| | | | |]; cbn [PartOutbox.step_p acc]; try rewrite app_nil_r.
+  - (* commit: only with no listing in progress *)
+    unfold listing_ok in Q. destruct (commit_ops (entries s) (pnext s) ops) as [es n]. cbn [fst listing].
+    intros es0 H. rewrite H in Q. discriminate.
+  - exact L.
+  - destruct (workers s w); try exact L. destruct (entries s) as [|e t] eqn:Es; cbn [fst]; [rewrite Es; exact L|].
+    destruct (claimable e (now s)); cbn [fst listing entries inner_parts]; [|rewrite Es; exact L].
+    exact L.
+  - destruct (workers s w) eqn:Ww; try exact L. cbn [fst listing entries inner_parts]. intros es0 H.
+    destruct (L es0 H) as [Inc Eq]. split; [exact Inc|].
+    destruct (Hd w id o) as (e & t & E & I1 & I2 & I3); [rewrite Ww; reflexivity|].
+    intros q. rewrite fold_apply_member; [apply Eq|]. apply Inc. rewrite E. cbn. left. exact I2.
+  - destruct (workers s w) eqn:Ww; try exact L.
+    destruct (existsb _ (entries s)); cbn [fst listing entries inner_parts]; [|exact L].
+    intros es0 H. destruct (L es0 H) as [Inc Eq]. split; [|exact Eq].
+    intros x Hx. apply Inc. unfold eops in *. apply in_map_iff in Hx as (e & <- & He). apply filter_In in He as [He _].
+    apply in_map. exact He.
+  - assert (G : forall id f, (forall e, pe_op (f e) = pe_op e) ->
+      forall es0, listing s = Some (LOutbox es0) ->
+      incl (eops (map_entry (entries s) id f)) (eops es0) /\ seq_store (spec_store log) (fold_ops (eops es0) (inner_parts s))).
+    { intros id f Hf es0 H. rewrite eops_map_entry by exact Hf. exact (L es0 H). }
+    destruct (workers s w); cbn [fst listing entries inner_parts]; [exact L | |];
+      apply G; intros e; destruct (owned_by e w); reflexivity.
+  - destruct (workers s w); try exact L. cbn [fst listing entries inner_parts]. intros es0 H.
+    rewrite eops_map_entry; [exact (L es0 H)|]. intros e; destruct (owned_by e w); reflexivity.
+  - exact L.
+  - exact L.
+  - exact L.
+  - exact L.
+  - destruct (listing s) as [l|] eqn:Ls; [cbn [fst]; rewrite Ls; exact L|]. cbn [fst listing entries inner_parts].
+    intros es0 H. inversion H; subst. split; [apply incl_refl | exact Sp].
+  - destruct (listing s) as [[es1|i1]|] eqn:Ls; cbn [fst listing]; try (rewrite Ls; exact L). intros es0 H. discriminate.
+  - destruct (listing s) as [l|] eqn:Ls; [cbn [fst]; rewrite Ls; exact L|]. cbn [fst listing]. intros es0 H. discriminate.
+  - destruct (listing s) as [[es1|i1]|] eqn:Ls; cbn [fst listing]; try (rewrite Ls; exact L). intros es0 H. discriminate.
+Qed.
+
+Lemma run_inv_list ws tr : forall s log, PInv ws s log -> LInv s log -> incl (trace_workers tr) ws ->
+  no_steal lease UP s ws tr = true -> quiet_listing lease UP s tr = true ->
+  PInv ws (fst (run_p s tr)) (log ++ committed tr) /\ LInv (fst (run_p s tr)) (log ++ committed tr).
+Proof.
+  induction tr as [|a t IH]; intros s log I L W NS Q; cbn [PartOutbox.run_p committed].
+  - rewrite app_nil_r. auto.
+  - cbn [no_steal] in NS. apply andb_true_iff in NS as [OK NS].
+    cbn [quiet_listing] in Q. apply andb_true_iff in Q as [Q1 Q2].
+    cbn [trace_workers flat_map] in W. apply incl_app_inv in W as [W1 W2].
+    pose proof (step_inv ws s log a I W1 OK) as I'.
+    pose proof (list_step ws s log a I L Q1) as L'.
+    destruct (step_p s a) as [s1 r] eqn:E. cbn [fst] in *.
+    specialize (IH s1 _ I' L' W2 NS Q2). destruct (run_p s1 t) as [s2 rs]. cbn [fst] in *.
+    rewrite <- app_assoc in IH. destruct a; cbn [acc app] in *; exact IH.
+Qed.
+
+(* the listing a GetPartIds call returns when its second read happens now *)
+Theorem listing_eq_committed tr es0 :
+  no_steal lease UP pinit (trace_workers tr) tr = true ->
+  quiet_listing lease UP pinit tr = true ->
+  listing (fst (run_p pinit tr)) = Some (LOutbox es0) ->
+  overlay_ids UP es0 (inner_parts (fst (run_p pinit tr))) =
+    filter (fun p => match spec_store (committed tr) p with Some _ => true | None => false end) UP.
+Proof.
+  intros NS Q H.
+  destruct (run_inv_list _ tr pinit [] (PInv_init _) (fun es0 E => ltac:(discriminate E)) (incl_refl _) NS Q) as [_ L].
+  cbn [app] in L. destruct (L es0 H) as [_ Eq]. unfold overlay_ids. apply filter_ext. intros p.
+  unfold overlay. rewrite (Eq p), fold_last, last_for_eops. reflexivity.
 Qed.
 
 (* one worker never steals *)
